@@ -527,11 +527,11 @@ Proof.
 Qed.
 
 Lemma model_meets_spec_seq i :
-  match i with Conc _ _ _ _ _ => False | _ => True end ->
+  match i with Conc _ _ _ _ _ | Route _ _ _ _ _ _ => False | _ => True end ->
   digest_ok i = true -> spec_ok i (model i) = true.
 Proof.
-  destruct i as [t c b size side up sm sv | t c p m srv | t z v jobs s]; cbn [digest_ok]; intros Hnc;
-    [| | contradiction].
+  destruct i as [t c b size side up sm sv | t c p m srv | t z v jobs s | t rt v p m srv];
+    cbn [digest_ok]; intros Hnc; [| | contradiction | contradiction].
   2:{ intros _. unfold model, model_by, spec_ok, spec_ok_seq. rewrite spec_res_model. reflexivity. }
   intros Hdig.
   unfold model, model_by, spec_ok, spec_ok_seq.
@@ -715,7 +715,10 @@ Qed.
 
 Lemma model_meets_spec i : digest_ok i = true -> conc_ok i = true -> spec_ok i (model i) = true.
 Proof.
-  destruct i as [t c b size side up sm sv | t c p m srv | t z v jobs s].
+  destruct i as [t c b size side up sm sv | t c p m srv | t z v jobs s | t rt v p m srv].
+  4:{ intros _ _. unfold model, model_by, spec_ok.
+      rewrite <- (spec_res_model t (Some (conc_cfg false v)) p m srv).
+      destruct (sresolve t (Some (conc_cfg false v)) p m srv); reflexivity. }
   - intros H _. now apply model_meets_spec_seq.
   - intros H _. now apply model_meets_spec_seq.
   - intros Hd Hc. unfold model, model_by, spec_ok, conc_outs.
@@ -750,4 +753,15 @@ Proof.
   cbv zeta. repeat split; try (vm_compute; reflexivity).
   - eexists. vm_compute. repeat split; reflexivity.
   - eexists. eexists. vm_compute. repeat split; reflexivity.
+Qed.
+
+(* ---- entry points ------------------------------------------------------------------- *)
+Lemma route_checksum_lemma t rt v p m srv x u w h :
+  is_pointer (b_rows p) m = true -> mget m c30_k_location = Some (x :: u) ->
+  url_ok v (x :: u) = true -> sfetch srv (x :: u) = Some w ->
+  mget m c30_k_sha = Some h -> ssha t w <> h ->
+  model (Route t rt v p m srv) = ORoute (RErr ESha).
+Proof.
+  intros Hp Hl Hu Hf Hs Hne. unfold model, model_by, sresolve.
+  rewrite (checksum_lemma swire sdec sdecomp (ssha t) sframed (conc_cfg false v) p m srv x u w h); auto.
 Qed.
